@@ -207,6 +207,116 @@ theorem C12_writer_progress (st st' : St) (hs : step good st .W = some st') : me
   | waitDone => simp only [step] at hs; split at hs <;> (first | (cases hs; simp [measure, wSteps]) | cases hs)
   | returned => simp [step] at hs
 
+/-! ### termination without a fairness assumption
+
+Every step of EITHER goroutine strictly decreases one natural number: the writer's steps decrease
+`measure`; a wake-up (which lets the storer run its re-lock / re-check / sleep cycle once more) is
+part of a writer step; the storer's other cycle moves at least one byte out of the buffer. -/
+
+def sPos : SPc → Nat
+  | .idle => 4 | .check => 3 | .enqueue => 2 | .sleep => 1 | .relock => 4 | .take => 2 | .done => 0
+
+def pendingBytes (st : St) : Nat := st.buf.length + (st.script.map List.length).sum
+
+def mu (st : St) : Nat := 16 * measure st + 8 * pendingBytes st + sPos st.spc
+
+theorem C12_every_step_progress (st st' : St) (a : Who) (hs : step good st a = some st') : mu st' < mu st := by
+  obtain ⟨m, closed, buf, spc, wpc, script, written, consumed⟩ := st
+  cases a with
+  | S =>
+    cases spc with
+    | idle => simp only [step] at hs; split at hs <;> (first | (cases hs; simp [mu, measure, pendingBytes, sPos]) | cases hs)
+    | check => simp only [step] at hs; split at hs <;> (cases hs; simp [mu, measure, pendingBytes, sPos])
+    | enqueue => simp only [step] at hs; cases hs; simp [mu, measure, pendingBytes, sPos]
+    | sleep => simp [step] at hs
+    | relock => simp only [step, good] at hs; split at hs <;> (first | (cases hs; simp [mu, measure, pendingBytes, sPos]) | cases hs)
+    | take =>
+      simp only [step, good] at hs
+      split at hs
+      · cases hs; simp [mu, measure, pendingBytes, sPos]
+      · rename_i hne
+        cases hs
+        have hpos : 0 < buf.length := by
+          cases buf with
+          | nil => simp at hne
+          | cons a t => simp
+        simp only [mu, measure, pendingBytes, sPos, List.length_drop]
+        omega
+    | done => simp [step] at hs
+  | W =>
+    have hw := C12_writer_progress _ _ hs
+    cases wpc with
+    | ready =>
+      cases script with
+      | nil =>
+        simp only [step, good, ite_true] at hs
+        split at hs <;> (first | (cases hs; simp [mu, measure, wSteps, pendingBytes, sPos]) | cases hs)
+      | cons c rest =>
+        simp only [step] at hs
+        split at hs <;> (first | (cases hs; simp [mu, measure, wSteps, pendingBytes, sPos]) | cases hs)
+    | append =>
+      cases script with
+      | nil => simp [step] at hs
+      | cons c rest =>
+        simp only [step] at hs; cases hs
+        simp only [mu, measure, wSteps, pendingBytes, sPos, List.length_append, List.map_cons, List.sum_cons, List.length_cons]
+        omega
+    | signal =>
+      clear hw
+      simp only [step] at hs; cases hs
+      cases spc <;> simp [wake, mu, measure, wSteps, pendingBytes, sPos] <;> omega
+    | closeStore => simp only [step] at hs; cases hs; simp [mu, measure, wSteps, pendingBytes, sPos]
+    | bcast =>
+      clear hw
+      simp only [step] at hs; cases hs
+      cases spc <;> simp [wake, mu, measure, wSteps, pendingBytes, sPos] <;> omega
+    | waitDone => simp only [step] at hs; split at hs <;> (first | (cases hs; simp [mu, measure, wSteps, pendingBytes, sPos]) | cases hs)
+    | returned => simp [step] at hs
+
+/-- a run of `n` steps uses up at least `n` of the measure -/
+theorem C12_run_bounded (st st' : St) (as : List Who) (h : run good st as = some st') :
+    as.length + mu st' ≤ mu st := by
+  induction as generalizing st with
+  | nil => simp only [run, Option.some.injEq] at h; subst h; simp
+  | cons a as ih =>
+    simp only [run] at h
+    cases hs : step good st a with
+    | none => rw [hs] at h; cases h
+    | some s1 =>
+      rw [hs] at h
+      have := ih s1 h
+      have := C12_every_step_progress st s1 a hs
+      simp only [List.length_cons]
+      omega
+
+theorem reach_of_run (script : List (List Nat)) (st st' : St) (as : List Who) (hr : Reach script st)
+    (h : run good st as = some st') : Reach script st' := by
+  induction as generalizing st with
+  | nil => simp only [run, Option.some.injEq] at h; subst h; exact hr
+  | cons a as ih =>
+    simp only [run] at h
+    cases hs : step good st a with
+    | none => rw [hs] at h; cases h
+    | some s1 => rw [hs] at h; exact ih s1 (Reach.step st s1 a hr hs) h
+
+/-- **Close returns, under every scheduler.**  For every script (any number of writes of any sizes,
+    empty ones included): no schedule is longer than `mu (init script)` steps, and a schedule that
+    cannot be extended — neither goroutine can move — has `Close` returned, with the whole content
+    delivered (`C12_concat`).  No fairness is assumed: every step of either goroutine uses up the
+    measure, so whatever the scheduler does with the two goroutines, as long as it runs one that
+    can run, `Close` returns after at most `mu (init script)` steps. -/
+theorem C12_close_returns (script : List (List Nat)) (as : List Who) (st : St)
+    (h : run good (init script) as = some st) :
+    as.length ≤ mu (init script) ∧ (stuck good st = true → st.wpc = .returned) := by
+  refine ⟨by have := C12_run_bounded _ _ as h; omega, ?_⟩
+  intro hst
+  by_cases hr : st.wpc = .returned
+  · exact hr
+  · have := C12_no_stuck script st (reach_of_run script _ _ as (Reach.init) h) hr
+    rw [this] at hst; cases hst
+
+example : mu (init [[1, 2, 3], [], [4, 5, 6, 7, 8, 9]]) = 556 := by decide
+
 /-! ### the pin's code: witnesses (tests of the model; replayed on the real code by the check) -/
 
 /-- `Read` with `if` instead of `for` (no re-check after the wake-up): an empty `Write` wakes the
